@@ -505,9 +505,30 @@ func execC18(sc *Scenario, env *Env) *Result {
 		ex := sc.Lines[3].Extra
 		ex[1], ex[len(ex)-1] = ex[len(ex)-1], ex[1]
 	}
+	// a fifth line: the same overrides with every decimal value moved in its seventh decimal place (values that agree
+	// to six decimals are still different values)
+	sc.Lines = sc.Lines[:4]
+	var nearArgs []string
+	nudged := false
+	for _, ed := range edits {
+		if k := strings.IndexByte(ed.Val, '.'); k >= 0 && len(ed.Val)-k-1 <= 5 && !strings.ContainsAny(ed.Val, "eE") {
+			ed.Val = ed.Val + strings.Repeat("0", 6-(len(ed.Val)-k-1)) + "4"
+			nudged = true
+		}
+		nearArgs = append(nearArgs, ed.arg())
+	}
+	if nudged {
+		sc.Lines = append(sc.Lines, BatchLine{World: sc.Lines[1].World, Extra: append([]string{"CropFile=" + fname}, nearArgs...)})
+	}
 	var lines []string
 	for i := range sc.Lines {
 		lines = append(lines, sc.lineText(i))
+	}
+	// solo references (fresh processes): the baseline line and the near-equal override line
+	ref0 := freshReference(env, root, sc.lineArgs(0), outIDOf(sc, 0))
+	var ref4 *lineRef
+	if nudged {
+		ref4 = freshReference(env, root, sc.lineArgs(4), outIDOf(sc, 4))
 	}
 	disk := NewSimDisk()
 	out := env.RunBatch(root, lines, sc.Sched, disk, true, 0, -1, 0)
@@ -543,6 +564,23 @@ func execC18(sc *Scenario, env *Env) *Result {
 	}
 	if d := diffFilesRenamed(get(0), get(1), id(0), id(1)); d != "" {
 		res.add("reach.override-changes-results", 1)
+	}
+	// no override of another line of the session reaches a line: the baseline equals its run alone in a fresh process,
+	// and so does the line whose override values differ from line 2's only in the seventh decimal
+	if ref0 != nil && !ref0.died && ref0.crashed == "" && ref0.success {
+		if d := diffFiles(ref0.files, get(0)); d != "" {
+			viol("session-isolation", "line-without-override-differs-from-its-solo-run", fmt.Sprintf("crop file %s: the line without any override, run in one session with lines overriding %s, differs from the same line run alone: %s", fname, strings.Join(editArgs, " "), d))
+		}
+		res.add("reach.baseline-solo-reference", 1)
+	}
+	if ref4 != nil && !ref4.died && ref4.crashed == "" && ref4.success {
+		if d := diffFiles(ref4.files, get(4)); d != "" {
+			viol("session-isolation", "near-equal-override-differs-from-its-solo-run", fmt.Sprintf("crop file %s: override %s (agrees with %s to six decimals) in one session with that line differs from the same line run alone: %s", fname, strings.Join(nearArgs, " "), strings.Join(editArgs, " "), d))
+		}
+		res.add("reach.near-equal-override-line", 1)
+		if d := diffFilesRenamed(get(1), get(4), id(1), id(4)); d != "" {
+			res.add("reach.near-equal-override-changes-results", 1)
+		}
 	}
 	for _, ed := range edits {
 		res.add("param."+ed.Name, 1)
@@ -589,8 +627,8 @@ func init() {
 		Chunk:       5,
 		MaxBadShare: 0.2,
 		NonTrivial:  func(res *Result) bool { return res.Status == "ok" && res.Stats["reach.override-changes-results"] > 0 },
-		Rule:        "one batch scenario per evaluation: four lines of one generated project in one session under the seeded scheduler — baseline, 1-3 crop-parameter overrides on the line, the same values edited into a copy of the crop parameter file (classic or YAML, selected through the parameter-folder argument), and the overrides plus one out-of-range value; the crop file rotates over every shipped annual crop (varieties included), the parameters over every overridable base, per-stage and per-organ kind; oracles: streams of line 2 and 3 byte-identical (after renaming the output id), streams of line 4 identical to the baseline; non-trivial = the override changed the results",
-		ReachKeys:   []string{"reach.override-changes-results", "reach.interleaved", "format.yml", "format.classic", "param.TSUM", "param.MAXAMAX", "param.PRO", "param.DEAD", "param.KC"},
+		Rule:        "one batch scenario per evaluation: four lines of one generated project in one session under the seeded scheduler — baseline, 1-3 crop-parameter overrides on the line, the same values edited into a copy of the crop parameter file (classic or YAML, selected through the parameter-folder argument), and the overrides plus one out-of-range value; the crop file rotates over every shipped annual crop (varieties included), the parameters over every overridable base, per-stage and per-organ kind; a fifth line repeats the overrides with every decimal value moved in its seventh decimal place; oracles: streams of line 2 and 3 byte-identical (after renaming the output id), streams of line 4 identical to the baseline, the baseline line and the fifth line byte-identical to the same line run alone in a fresh process; non-trivial = the override changed the results",
+		ReachKeys:   []string{"reach.override-changes-results", "reach.interleaved", "reach.baseline-solo-reference", "reach.near-equal-override-line", "reach.near-equal-override-changes-results", "format.yml", "format.classic", "param.TSUM", "param.MAXAMAX", "param.PRO", "param.DEAD", "param.KC"},
 		Assumptions: []string{
 			"the value is written with the same decimal text on the line and into the file",
 			"classic files: YIFAK (shares its field with the organ number) and PRO pairs are edited in YAML files only",
